@@ -230,55 +230,88 @@ def leanchecker(mods, log):
 
 # --------------------------------------------------------------------------- driver
 
-_DRV_COPY = [None]
+_DRV_COPIES = {}
 
 
-def snapshot_driver():
-    """private copy of the driver binary, taken under the build lock: other checks/builders may relink
-    lean/.lake/build/bin/makodrv while this check is running"""
+def gen_drivers(log=None):
+    """(re)generate the per-area driver roots and the lakefile from the registry Driver/Table.lean"""
+    rc, out = sh([sys.executable, os.path.join(VERIF, "tools", "gen_drivers.py"), "-q"], cwd=VERIF)
+    if rc != 0:
+        raise LeanError("gen_drivers failed: " + out[-2000:])
+
+
+def driver_for(op, log=print):
+    """private copy of the driver executable serving `op` (built on demand, copied under the build lock:
+    other checks/builders may relink binaries while this check is running)"""
     import atexit
     import shutil
     import tempfile
-    if _DRV_COPY[0] and os.path.exists(_DRV_COPY[0]):
-        return _DRV_COPY[0]
+    if op in _DRV_COPIES and os.path.exists(_DRV_COPIES[op]):
+        return _DRV_COPIES[op]
+    exe = os.path.join(LEAN, ".lake", "build", "bin", "makodrv_" + op)
     lk = _lock()
     try:
-        if not os.path.exists(DRV):
-            raise LeanError("driver not built: " + DRV)
+        t0 = time.time()
+        rc, out = sh(["lake", "build", "makodrv_" + op], cwd=LEAN, timeout=3000)
+        log("lake build makodrv_%s: rc=%d in %.1fs" % (op, rc, time.time() - t0))
+        if rc != 0 or not os.path.exists(exe):
+            raise LeanError("driver for op %r does not build:\n%s" % (op, out[-3000:]))
         d = os.path.join(LEAN, ".lake", "drvcopies")
         os.makedirs(d, exist_ok=True)
-        fd, path = tempfile.mkstemp(prefix="makodrv.", dir=d)
+        fd, path = tempfile.mkstemp(prefix="makodrv_%s." % op, dir=d)
         os.close(fd)
-        shutil.copy2(DRV, path)
+        shutil.copy2(exe, path)
         os.chmod(path, 0o755)
     finally:
         lk.close()
-    _DRV_COPY[0] = path
+    _DRV_COPIES[op] = path
     atexit.register(lambda: os.path.exists(path) and os.remove(path))
     return path
 
 
-class Driver:
-    """Pipe to the compiled Lean driver.  `ask_many` sends a batch and reads the answers."""
+def snapshot_driver():
+    """kept for harness modules written against the single-binary driver: returns the `path` driver"""
+    return driver_for("path")
 
-    def __init__(self):
-        self.path = snapshot_driver()
+
+class Driver:
+    """Pipe to the compiled Lean drivers (one executable per model area, chosen by the op = first field of
+    a request).  `ask_many` sends a batch and reads the answers, in order."""
+
+    def __init__(self, log=print):
         self.n = 0
+        self.log = log
+
+    def _run(self, op, lines):
+        path = driver_for(op, self.log)
+        data = "\n".join(lines) + "\n"
+        p = subprocess.run([path], input=data.encode("ascii"), stdout=subprocess.PIPE, stderr=subprocess.PIPE,
+                           timeout=3000)
+        if p.returncode != 0:
+            raise LeanError("driver %s exited %d: %s" % (op, p.returncode, p.stderr.decode()[-2000:]))
+        out = p.stdout.decode("ascii").split("\n")
+        if out and out[-1] == "":
+            out.pop()
+        if len(out) != len(lines):
+            raise LeanError("driver %s answered %d lines for %d requests" % (op, len(out), len(lines)))
+        return out
 
     def ask_many(self, lines):
         lines = list(lines)
         if not lines:
             return []
-        data = "\n".join(lines) + "\n"
-        p = subprocess.run([self.path], input=data.encode("ascii"), stdout=subprocess.PIPE, stderr=subprocess.PIPE,
-                           timeout=3000)
-        if p.returncode != 0:
-            raise LeanError("driver exited %d: %s" % (p.returncode, p.stderr.decode()[-2000:]))
-        out = p.stdout.decode("ascii").split("\n")
-        if out and out[-1] == "":
-            out.pop()
-        if len(out) != len(lines):
-            raise LeanError("driver answered %d lines for %d requests" % (len(out), len(lines)))
+        ops = [l.split(" ", 1)[0] for l in lines]
+        first = ops[0]
+        if all(o == first for o in ops):
+            out = self._run(first, lines)
+        else:
+            groups = {}
+            for i, o in enumerate(ops):
+                groups.setdefault(o, []).append(i)
+            out = [None] * len(lines)
+            for o, idx in groups.items():
+                for i, r in zip(idx, self._run(o, [lines[i] for i in idx])):
+                    out[i] = r
         self.n += len(lines)
         return out
 
@@ -405,7 +438,7 @@ class Ctx:
 
     def driver(self):
         if self._drv is None:
-            self._drv = Driver()
+            self._drv = Driver(self.log)
         return self._drv
 
     # -- bookkeeping used by property modules
